@@ -21,6 +21,7 @@ CHECKS = {
     "C03": "checks.c03",
     "C05": "checks.c05",
     "C11": "checks.c11",
+    "C07": "checks.c07",
     "C09": "checks.c09",
     "C20": "checks.c20",
     "C14": "checks.c14",
